@@ -105,9 +105,9 @@ func (i *Index) Encode() ([]byte, error) {
 	w.Write(binary.LittleEndian, i.DataBlock.Length)
 
 	for _, entry := range i.Entries {
-		w.Write(binary.LittleEndian, uint16(len(entry.StartKey)))
+		w.Write(binary.LittleEndian, uint32(len(entry.StartKey)))
 		w.Write(binary.LittleEndian, []byte(entry.StartKey))
-		w.Write(binary.LittleEndian, uint16(len(entry.EndKey)))
+		w.Write(binary.LittleEndian, uint32(len(entry.EndKey)))
 		w.Write(binary.LittleEndian, []byte(entry.EndKey))
 		w.Write(binary.LittleEndian, entry.DataHandle.Offset)
 		w.Write(binary.LittleEndian, entry.DataHandle.Length)
@@ -142,12 +142,12 @@ func (i *Index) Decode(index []byte) error {
 	r.Read(binary.LittleEndian, &i.DataBlock.Length)
 
 	for reader.Len() > 0 {
-		var startKeyLen uint16
+		var startKeyLen uint32
 		r.Read(binary.LittleEndian, &startKeyLen)
 		startKey := make([]byte, startKeyLen)
 		r.Read(binary.LittleEndian, &startKey)
 
-		var endKeyLen uint16
+		var endKeyLen uint32
 		r.Read(binary.LittleEndian, &endKeyLen)
 		endKey := make([]byte, endKeyLen)
 		r.Read(binary.LittleEndian, &endKey)
